@@ -55,15 +55,20 @@ def main(argv=None):
             with open(a.replay) as fh:
                 rep = json.load(fh)
             case = rep.get("case", rep)
-            mod.replay(ctx, case)
+            with contextlib.redirect_stdout(io.StringIO()):
+                mod.replay(ctx, case)
         else:
             # committed replays of open known findings are re-executed first (deterministic KNOWN-FINDING lines)
             for f in core.load_findings(pid_):
                 if f.get("status") == "open" and f.get("replay"):
                     with open(os.path.join(core.VERIF, f["replay"])) as fh:
                         rep = json.load(fh)
-                    mod.replay(ctx, rep.get("case", rep))
-            mod.run(ctx)
+                    with contextlib.redirect_stdout(io.StringIO()):
+                        mod.replay(ctx, rep.get("case", rep))
+            # the library prints progress messages; they are captured, never parsed
+            sink = io.StringIO()
+            with contextlib.redirect_stdout(sink):
+                mod.run(ctx)
         os.chdir(core.VERIF)
         return core.finish(ctx, keep_work=a.keep)
     except (core.MachineryError, tlc.TLCError) as e:
